@@ -65,6 +65,7 @@ def split_to(events):
 
 def body(ctx):
     ctx.model("IEEECheck.tla", "IEEECheckQuick.cfg", timeout=1200)
+    ctx.model("K_ConvMagic.tla", timeout=900)
     plan = lanes.replay_plan(ctx.replay) if ctx.replay else make_plan(ctx)
     ctx.log("plan: %d lines" % len(plan))
     events, plan = lanes.record(ctx, "cvt", plan, "c06")
